@@ -5,8 +5,10 @@ import ast
 from ..cfg import CFG
 from ..core import (AnalysisError, body_nodes, call_name, dotted, is_self_attr, key_text, kwarg,
                     names_in, params, stmts_of, unparse)
+from ..dtable import run_paths
 from ..inline import inline_helpers
 from ..normal import inline_temps
+from ..pattern import find, guards_of, pmatch
 
 SIM = 'tenpy/simulations/simulation.py'
 
@@ -420,11 +422,22 @@ def check_resume_order(prog, rep):
     rep.instance('RESUME-from-checkpoint', {})
     src = unparse(fc)
     lst = False
+    SRC = "sim.results['measurements']"
     for st in stmts_of(fc):
-        if isinstance(st, ast.Assign) and "['measurements']" in unparse(st.targets[0]):
-            for n in ast.walk(st.value):
-                if isinstance(n, ast.DictComp) and isinstance(n.value, ast.Call) and \
-                        dotted(n.value.func) == 'list':
+        if not (isinstance(st, ast.Assign) and unparse(st.targets[0]) == SRC):
+            continue
+        v = st.value
+        e = pmatch('{$k: list($v) for $k, $v in $$src.items()}', v)
+        if e and unparse(e['$$src']) == SRC:
+            lst = True
+        if isinstance(v, ast.Name):
+            # built in a loop: D[k] = list(v) for k, v in SRC.items()
+            for n2, e2 in find('%s[$k] = list($v)' % v.id, fc):
+                lp = n2
+                while lp is not None and not isinstance(lp, ast.For):
+                    lp = getattr(lp, '_parent', None)
+                if lp is not None and pmatch('%s.items()' % SRC, lp.iter) and \
+                        [unparse(x) for x in getattr(lp.target, 'elts', [])] == [e2['$k'], e2['$v']]:
                     lst = True
     if not lst:
         rep.violation('RESUME-from-checkpoint', m, 'Simulation.from_saved_checkpoint',
@@ -486,14 +499,39 @@ def check_resume_order(prog, rep):
                               'raise-before-save',
                               'KeyboardInterrupt is raised on a path that has not saved the '
                               'results', st.lineno)
-    guard = [s for s in stmts_of(sc) if isinstance(s, ast.If) and any(
-        isinstance(c, ast.Call) and dotted(c.func) == 'self.save_results' for b in s.body
-        for c in ast.walk(b))]
-    if not guard or 'self.received_signal_sigint' not in unparse(guard[0].test) or \
-            '_last_save' not in unparse(guard[0].test):
+    # decision table: results are saved iff (save interval elapsed) or (SIGINT received)
+    due = [unparse(c) for c in body_nodes(sc) if isinstance(c, ast.Compare) and
+           '_last_save' in unparse(c)]
+    notnone = [unparse(c) for c in body_nodes(sc) if isinstance(c, ast.Compare) and
+               'save_every' in unparse(c) and unparse(c).endswith('is not None')]
+    isnone = [unparse(c) for c in body_nodes(sc) if isinstance(c, ast.Compare) and
+              'save_every' in unparse(c) and unparse(c).endswith('is None')]
+    body = [s2 for s2 in sc.body if not (isinstance(s2, ast.Expr) and
+                                         isinstance(s2.value, ast.Constant))]
+    bad = None
+    if not due:
+        bad = 'no comparison of the time since the last save with the save interval'
+    else:
+        for sig in (True, False):
+            for x in (True, False):
+                for y in (True, False):
+                    atoms = {'self.received_signal_sigint': sig}
+                    atoms.update({t: y for t in due})
+                    atoms.update({t: x for t in notnone})
+                    atoms.update({t: not x for t in isnone})
+                    saved = set()
+                    for p in run_paths(body, atoms):
+                        saved.add(any(isinstance(st, ast.Expr) and isinstance(
+                            st.value, ast.Call) and dotted(st.value.func) == 'self.save_results'
+                            for st in p.trace))
+                    want = sig or (x and y)
+                    if saved != {want}:
+                        bad = 'for (SIGINT=%s, interval configured=%s, interval elapsed=%s) the ' \
+                            'results are %s' % (sig, x, y, 'saved' if True in saved else 'not saved')
+    if bad:
         rep.violation('RESUME-sigint', m, 'Simulation.save_at_checkpoint', 'save-condition',
                       'results must be saved when save_every_x_seconds elapsed OR SIGINT was '
-                      'received', sc.lineno)
+                      'received: ' + bad, sc.lineno)
     ha = m.func('Simulation.handle_abort_signal')
     rep.instance('RESUME-sigint', {'function': 'Simulation.handle_abort_signal'})
     sets = [s for s in stmts_of(ha) if isinstance(s, ast.Assign) and
